@@ -145,14 +145,19 @@ class TraitSet(set):
             The updated set.
         """
 
-        old_set = self.copy()
-        retval = super().__iand__(value)
-        removed = old_set.difference(self)
+        # See 'intersection_update': the elements that stay must be the
+        # set's own, not equal elements of the operand.
+        common = super().__and__(value)
+        if common is NotImplemented:
+            return NotImplemented
+
+        removed = self.difference(common)
+        super().difference_update(removed)
 
         if len(removed) > 0:
             self.notify(removed, set())
 
-        return retval
+        return self
 
     def __ior__(self, value):
         """ Return self |= value.
@@ -313,9 +318,13 @@ class TraitSet(set):
             The other iterables.
         """
 
-        old_set = self.copy()
-        super().intersection_update(*args)
-        removed = old_set.difference(self)
+        # The built-in operation may keep an *equal* element of one of the
+        # arguments in place of the set's own (validated) element, for
+        # example the float 1.0 instead of the integer 1. Remove the
+        # elements that are not common to all the arguments instead, so that
+        # the elements that stay are the set's own.
+        removed = self.difference(self.intersection(*args))
+        super().difference_update(removed)
 
         if len(removed) > 0:
             self.notify(removed, set())
